@@ -365,7 +365,8 @@ class Def:
             for vname, style, fields in self.variants:
                 for fn, te in fields:
                     ws.append('%s: epsh::%s' % (te_rust(te, self), tr))
-            return (' where ' + ', '.join(sorted(set(ws)))) if ws else ''
+            ws = sorted(set(ws)) + [w for w in self.where if not w.endswith(': Sized')]
+            return (' where ' + ', '.join(ws)) if ws else ''
         # Show
         if not self.is_enum:
             vname, style, fields = self.variants[0]
@@ -690,6 +691,10 @@ class Universe:
         where = []
         if tparams and copy != 'zero' and r.random() < 0.2:
             where.append('%s: Sized' % tparams[0]['name'])
+        elif tparams and copy != 'zero' and self.relaxed and r.random() < 0.3:
+            # a trait bound in the where clause, on any parameter (all arguments and their ε-copy types are Clone)
+            p = r.choice(tparams)
+            where.append('%s: %s' % (p['name'], r.choice(['epsh::Mark', 'Clone', 'Clone + epsh::Mark'])))
         return Def(name, is_enum, copy, reprs, align_attr, tparams, cparams, variants, where)
 
     def inst(self, d, depth=1):
